@@ -454,6 +454,16 @@ func applyPert(b *baseCtx, p pert) (v verdict, expectAccept bool, ok bool) {
 		}
 		return safeVerify(req(b.authz), c.User, c.Pass, toMethods(alt), c.Realm, c.Nonce), false, true
 
+	case "scheme-not-enabled-implicit-md5":
+		if p.AltEnabled == nil {
+			return v, false, false
+		}
+		a, changed := tamper(b.authz, func(h *headers.Authorization) { h.Algorithm = nil })
+		if !changed {
+			return v, false, false
+		}
+		return safeVerify(req(a), c.User, c.Pass, toMethods(p.AltEnabled), c.Realm, c.Nonce), false, true
+
 	case "header-missing":
 		r := req(b.authz)
 		delete(r.Header, "Authorization")
